@@ -390,9 +390,12 @@ int main(int argc, char **argv)
             j["crashed"] = !early;
             if (!early)
               g_shm->dev_crashes = g_shm->dev_crashes + 1;
-            j["what"]    = "object(s) " + died.dump() + " destroyed during " + sj.value("op", "") +
-                        " although an owner remains (instance counter), as in the deviation" +
-                        (early ? std::string("") : "; then the process died: " + sum);
+            bool same_as_ideal = sj["exp"].value("died", json::array()) == ed;
+            j["what"] = (same_as_ideal ? "the process died in " + sj.value("op", "") +
+                                             " (the deviation: what the operation lets go of is used again)"
+                                       : "object(s) " + died.dump() + " destroyed during " + sj.value("op", "") +
+                                             " although the specification keeps an owner (instance counter), as in the deviation") +
+                        (early ? std::string("") : ": " + sum);
             classified = true;
             break;
           }
